@@ -87,7 +87,7 @@ theorem other_kinds_untouched (ms : Maps) (op : SOp) (k : Kind) (h : k ≠ op.ki
   simp only [applySOp, Maps.set]
   rw [KTab.get_set, if_neg h]
 
-theorem KTab.ext' {α} (t u : KTab α) (h : ∀ k, t.get k = u.get k) : t = u := by
+theorem ktab_ext {α} (t u : KTab α) (h : ∀ k, t.get k = u.get k) : t = u := by
   cases t; cases u
   have h1 := h .solution; have h2 := h .pp; have h3 := h .exchange; have h4 := h .surface; have h5 := h .ss
   have h6 := h .gas; have h7 := h .kinetics; have h8 := h .mix; have h9 := h .reaction; have h10 := h .temperature
@@ -98,7 +98,7 @@ theorem KTab.ext' {α} (t u : KTab α) (h : ∀ k, t.get k = u.get k) : t = u :=
 /-- operations on different kinds commute -/
 theorem ops_commute_across_kinds (ms : Maps) (a b : SOp) (h : a.kind ≠ b.kind) :
     applySOp (applySOp ms a) b = applySOp (applySOp ms b) a := by
-  apply KTab.ext'
+  apply ktab_ext
   intro k
   simp only [applySOp, Maps.set, KTab.get_set]
   by_cases hb : k = b.kind
@@ -299,7 +299,7 @@ theorem good_applySOps (ops : List SOp) (ms : Maps) (h : GoodStore ms) : GoodSto
 /-- two well-formed stores with the same abstract view are the same store -/
 theorem abs_injective (ms₁ ms₂ : Maps) (h₁ : GoodStore ms₁) (h₂ : GoodStore ms₂) (h : abs ms₁ = abs ms₂) :
     ms₁ = ms₂ := by
-  apply KTab.ext'
+  apply ktab_ext
   intro k
   exact good_ext (h₁ k).1 (h₂ k).1 (fun x => congrFun (congrFun h k) x)
 
